@@ -760,6 +760,87 @@ func (g *gen) paths(variant int) {
 	}
 }
 
+// batched: the batched snapshot iterator over LARGE snapshots (100..400 keys) of mixed lengths built from prefix chains
+// (k, k00, k0, k1, ka, kaz, … : proper prefixes right before their extensions, short keys right after long ones), so that
+// the batch boundaries (32, 96, 224, …) fall on short keys whose resume key lastKey+0x00 reuses a buffer that held a longer
+// one.  Forward and reverse, unbounded and with many lower / upper bounds (every bound shifts the boundaries), against the
+// model (gsiter) and against the unbatched iterators of the same snapshot (gschk); staged writes on top must stay invisible.
+func (g *gen) batched(variant int) {
+	r := g.r
+	g.startCase("batched", "reset")
+	want := []int{100, 130, 200, 260, 400}[variant%5]
+	alpha := []byte{0x00, 0x01, 0x30, 0x31, 0x39, 0x61, 0x7a, 0xff}
+	seen := map[string]bool{}
+	var keys [][]byte
+	add := func(k []byte) {
+		if !seen[string(k)] && len(keys) < want {
+			seen[string(k)] = true
+			keys = append(keys, append([]byte{}, k...))
+		}
+	}
+	for len(keys) < want {
+		k := []byte{byte(0x61 + r.Intn(6))}
+		n := r.Intn(6)
+		for i := 0; i < n; i++ {
+			k = append(k, alpha[r.Intn(len(alpha))])
+		}
+		add(k)
+		// the chain of its prefixes, and small extensions of them
+		for j := 1; j < len(k); j++ {
+			if r.Chance(60) {
+				add(k[:j])
+			}
+			if r.Chance(30) {
+				add(append(append([]byte{}, k[:j]...), alpha[r.Intn(3)]))
+			}
+		}
+	}
+	for _, k := range keys {
+		g.do("set " + vx.Hex(k) + " " + []string{"aa", "bbbb", "cc"}[r.Intn(3)])
+	}
+	if r.Chance(70) {
+		g.do("staging")
+		for i := 0; i < 20; i++ {
+			k := keys[r.Intn(len(keys))]
+			switch r.Intn(3) {
+			case 0:
+				g.do("set " + vx.Hex(k) + " dddd")
+			case 1:
+				g.do("del " + vx.Hex(k))
+			default:
+				g.do("set " + vx.Hex(append(append([]byte{}, k...), 0x00)) + " ee") // staged only: between k and its successors
+			}
+		}
+	}
+	g.do("gschk - - 0")
+	g.do("gschk - - 1")
+	g.do("gsiter - - 0")
+	g.do("gsiter - - 1")
+	g.do("snapchk")
+	pick := func() string { return vx.Hex(keys[r.Intn(len(keys))]) }
+	for i := 0; i < 10; i++ {
+		lo, hi := pick(), "-"
+		if r.Chance(40) {
+			hi = pick()
+		}
+		g.do("gschk " + lo + " " + hi + " 0")
+		if i < 3 {
+			g.do("gsiter " + lo + " " + hi + " 0")
+		}
+	}
+	for i := 0; i < 5; i++ {
+		lo, hi := "-", pick()
+		if r.Chance(40) {
+			lo = pick()
+		}
+		g.do("gschk " + lo + " " + hi + " 1")
+		if i < 2 {
+			g.do("gsiter " + lo + " " + hi + " 1")
+		}
+	}
+	g.finish(r.Intn(2))
+}
+
 func generate(run *vx.Run, wd *world) {
 	g := &gen{run: run, wd: wd, r: vx.NewRand(run.Seed)}
 	pool := exhaustivePool()
@@ -771,6 +852,13 @@ func generate(run *vx.Run, wd *world) {
 	}
 	for i := 0; i < nb; i++ {
 		g.blocks(i)
+	}
+	nbi := 30
+	if run.Thorough() {
+		nbi = 300
+	}
+	for i := 0; i < nbi; i++ {
+		g.batched(i)
 	}
 	np := 50
 	if run.Thorough() {
